@@ -75,23 +75,35 @@ def _ladder(run, name, tickterm, facts=None, tm=TM, R1="R1", tag=""):
         td = [(b, t) for b in sorted(tr) for t in by_block.get(b, [])]
         fd = [(b, t) for b in sorted(fr) for t in by_block.get(b, [])]
         used.update(b for b, _ in td + fd)
-        if i == 0:
-            ok = len(td) == 1 and len(fd) == 1 and _const(td[0][1]) is not None and _const(fd[0][1]) is not None
-            if ok:
-                init = {True: _const(td[0][1]), False: _const(fd[0][1])}
-            ok_all = ok_all and ok
-            continue
-        lit = None
-        if len(td) == 1 and not fd:
-            t = td[0][1]
+        def step_literal(t):
             if name.endswith("positive_tick"):
                 if t[0] == "call" and t[1].endswith("mul_shift_96") and strip(t[2][0]) == ("var", rname, ratio):
-                    lit = _const(t[2][1])
+                    return _const(t[2][1])
             else:
                 if t[0] == "bin" and t[1] == "Shr" and _const(t[3]) == 64:
                     mu = strip(t[2])
                     if mu[0] == "bin" and mu[1].startswith("Mul") and strip(mu[2]) == ("var", rname, ratio):
-                        lit = _const(mu[3])
+                        return _const(mu[3])
+            return None
+        if i == 0:
+            ok = len(td) == 1 and len(fd) == 1 and _const(td[0][1]) is not None and _const(fd[0][1]) is not None
+            if ok:
+                init = {True: _const(td[0][1]), False: _const(fd[0][1])}
+            else:
+                # bit 0 written like every other rung over the unit start value: step(1.0, literal) is the literal itself
+                # (mul_shift_96(2^96, x) = x; (2^64 * x) >> 64 = x), so the two forms start the ladder identically
+                one = 1 << (96 if name.endswith("positive_tick") else 64)
+                pre = [(b, t) for b in by_block if b not in tr and b not in fr and cfg.dominates(fn, b, at.block) for t in by_block[b]]
+                l0 = step_literal(td[0][1]) if len(td) == 1 and not fd else None
+                ok = len(pre) == 1 and _const(pre[0][1]) == one and l0 is not None
+                if ok:
+                    init = {True: l0, False: one}
+                    used.add(pre[0][0])
+            ok_all = ok_all and ok
+            continue
+        lit = None
+        if len(td) == 1 and not fd:
+            lit = step_literal(td[0][1])
         if lit is None:
             ok_all = False
             run.bad(R1, "rung@%s/%d" % (name, mask), "mask %d of %s does not guard exactly one `ratio = step(ratio, literal)`: true side %s, false side %s" %
